@@ -35,6 +35,7 @@ func init() {
 			"each serialised by an independent Go implementation of the OpenAPI style table (the driver re-encodes and must agree); allOf/anyOf/oneOf over pairs of leaf schemas × raw texts and × array/object values serialised for the cell (deepObject included); absence with and without other path/query parameters; " +
 			"plus a seeded stream of malformed / free carrier texts assembled from delimiters, prefixes and primitive tokens (incl. non-decimal integers, odd pair counts, wrong prefixes). " +
 			"Content-described parameters (content: {<media>: {schema}}): 4 locations × media key sets × 10 schemas × JSON and non-JSON texts × one / several / no values × required × allowEmptyValue (verdict only). " +
+			"Cases whose style or explode equals the location's default also run with that keyword left out of the document (style only, explode only, both). " +
 			"Every header case runs twice: as a request parameter (ValidateParameter) and as a response header (ValidateResponse → validateResponseHeader). " +
 			"A case is non-trivial when the decoder is actually entered (the driver then reports cell, shape, verdict, value kind, round-trip oracle and model≠spec branches); requests with an empty PathParams map / empty query (early return) count as trivial.",
 		Exhaustive: true,
@@ -231,8 +232,11 @@ func c05Build(c hx.Case) (*openapi3.Parameter, *openapi3filter.RequestValidation
 	name := jstr(c, "name")
 	p := &openapi3.Parameter{Name: name, In: jstr(c, "in"), Required: jbool(c, "required"),
 		AllowEmptyValue: jbool(c, "allowEmpty"), Schema: c05Schema(sm).NewRef()}
-	if !jbool(c, "useDefaults") {
+	// the document may leave out style, explode, or both: Parameter.SerializationMethod supplies the defaults
+	if !jbool(c, "useDefaults") && !jbool(c, "omitStyle") {
 		p.Style = jstr(c, "style")
+	}
+	if !jbool(c, "useDefaults") && !jbool(c, "omitExplode") {
 		ex := jbool(c, "explode")
 		p.Explode = &ex
 	}
@@ -961,11 +965,27 @@ func genC05(ctx *hx.Ctx, emit0 func(hx.Case)) {
 		return true
 	}
 	bools := []bool{false, true}
+	sendN := 0
 	send := func(c hx.Case, ok bool) {
 		if ok {
-			if c05IsDefault(c05Cell{jstr(c, "in"), jstr(c, "style"), jbool(c, "explode")}) {
+			cl := c05Cell{jstr(c, "in"), jstr(c, "style"), jbool(c, "explode")}
+			if c05IsDefault(cl) {
 				d := cloneCase(c)
 				d["useDefaults"] = true
+				emit(d)
+			}
+			// style spelled out, explode left to its default (and the other way round): the two defaults are independent
+			sendN++
+			defExplode := cl.in == "query" || cl.in == "cookie"
+			defStyle := map[string]string{"path": "simple", "header": "simple", "query": "form", "cookie": "form"}[cl.in]
+			if cl.explode == defExplode && sendN%2 == 0 {
+				d := cloneCase(c)
+				d["omitExplode"] = true
+				emit(d)
+			}
+			if cl.style == defStyle && sendN%3 == 0 {
+				d := cloneCase(c)
+				d["omitStyle"] = true
 				emit(d)
 			}
 			emit(c)
@@ -1590,7 +1610,7 @@ func shrinkC05(c hx.Case) []hx.Case {
 		x["enc"] = nil
 		return []hx.Case{x}
 	}
-	for _, k := range []string{"required", "allowEmpty", "useDefaults"} {
+	for _, k := range []string{"required", "allowEmpty", "useDefaults", "omitStyle", "omitExplode"} {
 		if jbool(c, k) {
 			x := cloneCase(c)
 			x[k] = false
